@@ -668,7 +668,69 @@ pub(crate) fn allocate_registers(ops: &[Op]) -> Result<Vec<AllocatedAbstractOp>,
         })
     }
 
+    #[cfg(fuellabs_sway_verif)]
+    verif_dump_allocation(&updated_ops, &pool);
+
     Ok(buf)
+}
+
+/// Verification hook H4: dump the post-coalescing ops (defs, uses, successors, move source) and
+/// the virtual -> physical assignment of one function to the verification trace.
+#[cfg(fuellabs_sway_verif)]
+fn verif_dump_allocation(ops: &[Op], pool: &RegisterPool) {
+    use crate::asm_lang::{ControlFlowOp, Label};
+    use std::fmt::Write;
+    if !sway_utils::verif::tracing() {
+        return;
+    }
+    let mut label_to_index: HashMap<Label, usize> = HashMap::new();
+    for (idx, op) in ops.iter().enumerate() {
+        if let Either::Right(ControlFlowOp::Label(op_label)) = op.opcode {
+            label_to_index.insert(op_label, idx);
+        }
+    }
+    let name = |r: &VirtualRegister| format!("\"{}\"", sway_utils::verif::esc(&r.to_string()));
+    let list = |regs: BTreeSet<&VirtualRegister>| {
+        regs.into_iter()
+            .filter(|r| r.is_virtual())
+            .map(name)
+            .collect::<Vec<_>>()
+            .join(",")
+    };
+    let mut all = BTreeSet::new();
+    let mut out = String::from("\"ops\":[");
+    for (ix, op) in ops.iter().enumerate() {
+        all.extend(op.registers().into_iter().filter(|r| r.is_virtual()).cloned());
+        let mv = match &op.opcode {
+            Either::Left(VirtualOp::MOVE(_, c)) if c.is_virtual() => name(c),
+            _ => "null".to_string(),
+        };
+        let succ = op
+            .successors(ix, ops, &label_to_index)
+            .iter()
+            .map(|s| s.to_string())
+            .collect::<Vec<_>>()
+            .join(",");
+        let _ = write!(
+            out,
+            "{}{{\"d\":[{}],\"u\":[{}],\"s\":[{}],\"mv\":{}}}",
+            if ix == 0 { "" } else { "," },
+            list(op.def_registers()),
+            list(op.use_registers()),
+            succ,
+            mv
+        );
+    }
+    out.push_str("],\"assign\":{");
+    for (i, r) in all.iter().enumerate() {
+        let phys = match pool.get_register(r) {
+            Some(a) => format!("\"{}\"", sway_utils::verif::esc(&a.to_string())),
+            None => "null".to_string(),
+        };
+        let _ = write!(out, "{}{}:{}", if i == 0 { "" } else { "," }, name(r), phys);
+    }
+    out.push('}');
+    sway_utils::verif::trace("RegAlloc", &out);
 }
 
 /// Use the stack generated by the coloring algorithm to figure out a register assignment for each
@@ -751,6 +813,21 @@ fn spill(ops: &[Op], spills: &FxHashSet<VirtualRegister>) -> Vec<Op> {
 
     // Determine the stack slots for each spilled register.
     let spill_offsets_bytes = spill_offsets(spills, locals_size_bytes);
+
+    #[cfg(fuellabs_sway_verif)]
+    if sway_utils::verif::tracing() {
+        let mut slots: Vec<_> = spill_offsets_bytes.iter().collect();
+        slots.sort();
+        let slots = slots
+            .into_iter()
+            .map(|(r, o)| format!("\"{}\":{o}", sway_utils::verif::esc(&r.to_string())))
+            .collect::<Vec<_>>()
+            .join(",");
+        sway_utils::verif::trace(
+            "Spill",
+            &format!("\"locals\":{locals_size_bytes},\"slots\":{{{slots}}}"),
+        );
+    }
 
     let spills_size = (8 * spills.len()) as u32;
     let new_locals_byte_size = locals_size_bytes + spills_size;
